@@ -17,7 +17,9 @@ Tr == ndJsonDeserialize(IOEnv.TRACE)
 E == Tr[l]
 Is(op) == l <= Len(Tr) /\ Tr[l].op = op /\ l' = l + 1
 
-ObsOK(r, b) == /\ E.ret = r.ret /\ E.rep = r.rep /\ E.n = r.n /\ E.over = r.over
+\* the statement allows a failing request to answer "NULL (or bad_alloc)": either is a clean failure, whatever the entry point
+Failed(x) == x \in {"null", "badalloc"}
+ObsOK(r, b) == /\ (E.ret = r.ret \/ (Failed(E.ret) /\ Failed(r.ret))) /\ E.rep = r.rep /\ E.n = r.n /\ E.over = r.over
                /\ E.live = Cardinality({ s \in Slots : b[s] # NoBlk })
                /\ E.intact /\ E.clean
                /\ r.ret = "ptr" => (E.inside /\ E.aligned)
